@@ -1,9 +1,95 @@
 import Rare.Drv.Expr
+import Rare.Model.C19Float
+/-!
+Driver ops of C19.
+
+  math <formula hex> <matches: bits,bits,… | .> <keys: namehex=bits,… | .>
+
+compiles and evaluates the formula with the float64 instance of the model; bindings are float64
+bit patterns (16 hex digits).  Answers `ok <bits>` (any NaN is `ok nan`), `err <kind>` (compile
+error), `unmodelled <why>` (value depends on a libm function / a literal spelling outside the
+modelled grammar) or `panic`.
+
+  ref <formula hex> <matches> <keys>
+
+is the implementation-vs-independent-evaluator differential run inside the harness; the model's
+answer is the constant `ok agree`.
+
+  tok <formula hex>   token list of the tokenizer model (kind:hex,…), for debugging.
+
+Plus the shared `expr` op (`{! …}` inside templates).
+-/
 namespace Rare.Drv.C19
+open Rare Rare.C19 Rare.Proto
+
+def hexDigitVal (c : Char) : Option Nat := Hex.val c
+
+def parseBits (s : String) : Option Float :=
+  if s.length ≠ 16 then none
+  else (s.toList.foldlM (fun (acc : Nat) c => (hexDigitVal c).map (acc * 16 + ·)) 0).map
+    (fun n => Float.ofBits (UInt64.ofNat n))
+
+def parseMatches (s : String) : Option (List Float) :=
+  if s = "." then some [] else (s.splitOn ",").mapM parseBits
+
+def parseKeys (s : String) : Option (List (Bytes × Float)) :=
+  if s = "." then some [] else
+  (s.splitOn ",").mapM fun kv =>
+    match kv.splitOn "=" with
+    | [k, v] => do
+      let kb ← Hex.dec k
+      let f ← parseBits v
+      pure (kb, f)
+    | _ => none
+
+def hex16 (n : UInt64) : String :=
+  let ds := (List.range 16).map fun i => Hex.digit ((n.toNat / 16 ^ (15 - i)) % 16)
+  String.ofList ds
+
+def errStr : Err → String
+  | .overclosed => "err overclosed"
+  | .unclosed => "err unclosed"
+  | .numeric => "err numeric"
+  | .unexpectedEnd => "err end"
+  | .expectedExpr => "err expr"
+  | .unknownOp => "err unknownop"
+  | .expectedOp => "err op"
+  | .panic _ => "panic"
+  | .fuel => "fuel"
+  | .unmodelled w => "unmodelled " ++ w
+
+def binding (ms : List Float) (ks : List (Bytes × Float)) : Binding F.FV :=
+  { getMatch := fun i => if i < 0 then some 0.0 else some (ms.getD i.toNat 0.0),
+    getKey := fun k => match ks.find? (·.1 == k) with
+      | some p => some p.2
+      | none => some 0.0 }
+
+def tokKind : TokT → String
+  | .lit => "L" | .group => "G" | .op => "O" | .mod => "M"
 
 def handle (args : List String) : String :=
-  match Rare.Drv.Expr.handle args with
-  | some a => a
-  | none => "bad-op"
+  match args with
+  | ["math", f, ms, ks] =>
+    match Hex.dec f, parseMatches ms, parseKeys ks with
+    | some fb, some m, some k =>
+      match compile F.arith fb with
+      | .error e => errStr e
+      | .ok (_, e) =>
+        match e.eval F.arith (binding m k) with
+        | none => "unmodelled inexact"
+        | some v => if v.isNaN then "ok nan" else "ok " ++ hex16 v.toBits
+    | _, _, _ => "bad-args"
+  | ["ref", _, _, _] => "ok agree"
+  | ["tok", f] =>
+    match Hex.dec f with
+    | some fb =>
+      match tokenize fb with
+      | .ok toks => "ok " ++ ",".intercalate (toks.map fun t => tokKind t.t ++ ":" ++ Hex.enc t.val)
+      | .error e => errStr e
+    | none => "bad-args"
+  | _ =>
+    match Rare.Drv.Expr.handle args with
+    | some a => a
+    | none => "bad-op"
 
 end Rare.Drv.C19
